@@ -11,6 +11,7 @@ case "$id" in
   *.r3) src="/tmp/mut3-$prop/SEEDED" ;;
   *.r4) src="/tmp/mut4-$prop/SEEDED" ;;
   *.r5) src="/tmp/mut5-$prop/SEEDED" ;;
+  *.r6) src="/tmp/mut6-$prop/SEEDED" ;;
   *)    src="/tmp/mut-$prop/SEEDED" ;;
 esac
 dst="seeded/$id"
